@@ -1,0 +1,30 @@
+/**
+ * @file verif_hooks.h
+ * Passive observation hooks, compiled only with -DUNCRUSTIFY_VERIF.
+ */
+#ifndef VERIF_HOOKS_H_INCLUDED
+#define VERIF_HOOKS_H_INCLUDED
+
+#ifdef UNCRUSTIFY_VERIF
+
+#include <cstddef>
+
+class Chunk;
+
+//! dump the whole chunk list (stage is 'T' after tokenize, 'O' before output)
+void verif_dump_chunks(char stage);
+
+//! remember a rule name logged by do_space()
+void verif_space_rule(const char *rule);
+
+//! forget the remembered rule names (called before do_space())
+void verif_space_begin();
+
+//! remember the value do_space() returned before ensure_force_space()
+void verif_space_raw(int av_raw);
+
+//! record the decision taken for a pair in space_text()
+void verif_space_record(Chunk *first, Chunk *second, int av_final, bool forced, int min_sp, size_t col_delta);
+
+#endif /* UNCRUSTIFY_VERIF */
+#endif /* VERIF_HOOKS_H_INCLUDED */
